@@ -78,6 +78,8 @@ def ob_s2n_table(run, oid):
             if a[0] == "eq" and a[2] is True and any(K.mentions_field(x, "parents", "SlotState") for x in a[1]) and \
                     any(K.mentions(x, lambda t: t[0] == "agg" and t[2] == "Certified") or "Certified" in mir.show(x) for x in a[1]):
                 gp = a
+            if a[0] == "variant" and a[2] is True and K.mentions_field(a[1][0], "parents", "SlotState") and set(a[1][1]) == {"Certified"}:
+                gp = a
         o.check(gp is not None, key + "|parent-certified", "guarded by parents[block_hash] == Certified", sp, det)
         # own vote: skip is Some, or notar is Some for another hash
         gs = G.has_guard(prog, b, bb, pred="is_some", polarity=True, fields=["skip"], owner="SlotVotes", depth=0)
@@ -94,7 +96,7 @@ def ob_s2n_table(run, oid):
         else:
             o.fail(key + "|own-vote", "SafeToNotar returned without the node having voted (skip, or notar for another block)", sp, det)
         rec = [lambda a: a[0] == "bool" and a[1][0][0] == "call" and a[1][0][1].startswith(EPOCH + "is_"),
-               lambda a: a[0] in ("is_some", "eq") and any(K.mentions_field(x, "parents", "SlotState") for x in a[1] if isinstance(x, tuple)),
+               lambda a: a[0] in ("is_some", "eq", "variant") and any(K.mentions_field(x, "parents", "SlotState") for x in a[1] if isinstance(x, tuple)),
                lambda a: a[0] in ("is_some", "variant", "eq") and any((K.mentions_field(x, "skip", "SlotVotes") or K.mentions_field(x, "notar", "SlotVotes")) and K.mentions_call(x, "own_id") for x in a[1] if isinstance(x, tuple))]
         extra = D.extra_guards(prog, b, bb, rec)
         o.check(not extra, key + "|no-extra-condition", "no further condition delays or suppresses SafeToNotar", sp, {"extra": G.atoms_show(extra)})
